@@ -17,7 +17,9 @@ ALIASES = {'identity': 'eye', 'absolute': 'abs', 'fabs': 'abs', 'arctan2': 'atan
 
 def short_name(fi, fn):
     t = fi.resolve(fn)
-    if t.kind in ('func', 'method') and isinstance(t.obj, Function):
+    if t.kind == 'func' and isinstance(t.obj, Function):
+        return t.obj.name
+    if t.kind == 'method' and isinstance(t.obj, Function) and not isinstance(fn, ast.Attribute):
         return t.obj.name
     if t.kind == 'class' and isinstance(t.obj, Class):
         return t.obj.name
